@@ -71,7 +71,8 @@ def search(ctx):
     the standard run found no property violation: look harder. First the families that drive the
     yield points inside the cache manager (cold construction against a committing writer at every
     boundary of the new-cache path; a late-failing / committing writer with a second writer or a
-    reader queued on its cache, with and without a third party holding the manager lock), each with
+    reader queued on its cache, with and without a third party holding the manager lock; two write
+    batches on one point interleaved at every storage transaction boundary of the first), each with
     several data variants, plus the stress on one size-limited manager shared by two shards
     (`-tier focus`); then one more standard run with another seed."""
     import re
